@@ -470,7 +470,12 @@ impl Linear for Angle {
     }
 }
 
-impl ZDiv for Angle {}
+impl ZDiv for Angle {
+    #[inline]
+    fn z_div(self, z: f32) -> Self {
+        Self(self.0 / z)
+    }
+}
 
 //
 // Foreign trait impls
